@@ -59,8 +59,10 @@ def clause_pool(verb, rng):
         return {"as": "as mine", "be": "be aux", "in": "in frame b"}
     if verb == "need":
         # the frame name after `in frame` is optional; `kind` picks the participle the script uses
+        # `tail`: a further condition joined with `and` after the clauses (it stays last in every permutation)
         return {"in": "in frame" + rng.choice(["", "", " a", " b", " me"]), "by": "by " + rng.choice(["k1", "k2", '"k 3"']),
-                "kind": rng.choice(["updated", "changed"])}
+                "kind": rng.choice(["updated", "changed"]),
+                "tail": rng.choice(["and elapsed >= 1.0", "and .src == 1", "and not .c0", "and elapsed >= 1.0"])}
     raise ValueError(verb)
 
 
@@ -84,8 +86,10 @@ def script(verb, clauses):
         return (HEAD + "  framer fx be active\n    frame a\n      rear mo %s\n      go b\n    frame b\n  framer mo be moot\n    frame x\n" % c)
     if verb == "need":
         kind = [x for x in clauses if x in ("updated", "changed")]
-        c = " ".join(x for x in clauses if x not in ("updated", "changed"))
-        return HEAD + "  framer fx be active\n    frame a\n      go b if .c0 is %s %s\n    frame b\n      go a\n" % (kind[0] if kind else "updated", c)
+        tail = [x for x in clauses if x.startswith("and ")]
+        c = " ".join(x for x in clauses if x not in ("updated", "changed") and not x.startswith("and "))
+        return HEAD + "  framer fx be active\n    frame a\n      go b if .c0 is %s %s%s\n    frame b\n      go a\n" % (
+            kind[0] if kind else "updated", c, (" " + tail[0]) if tail else "")
     raise ValueError(verb)
 
 
